@@ -28,7 +28,9 @@ CONSTANTS N,        \* capacity
           MaxArg,   \* largest length of slice / iterator / array arguments
           Families  \* which operation families Next offers (subset of AllFamilies)
 
-AllFamilies == {"single", "positional", "bulk", "fill", "extend", "access", "iter", "drain", "ctor", "faults", "io"}
+AllFamilies == {"single", "positional", "bulk", "fill", "extend", "access", "iter", "drain", "ctor", "faults", "io", "conv"}
+\* the conversion family (clone, clone_from, to_vec, into_iter) starts from pairs of buffers
+Conv == "conv" \in Families
 \* the byte-stream family runs on buffers of plain bytes (Copy, no destructor): exclusive
 Bytes == Families = {"io"}
 
@@ -46,6 +48,13 @@ vars == <<start, size, slots, S, ev, fails, nid, view, hist, lay0, ncalls>>
 Junk == -1
 NoView == [on |-> FALSE, kind |-> "", buf_size |-> 0, rs |-> 0, re |-> 0, is |-> 0, ie |-> 0, right |-> <<>>, left |-> <<>>,
            short |-> FALSE, lens |-> FALSE, steps |-> 0, maxsteps |-> 0]
+
+\* how the view will be exercised: canonical range forms get every interleaving of next / next_back
+\* (up to one call past exhaustion), with len() after every step or never; other forms are only
+\* measured and dropped
+Script(vw, bs, be, lens, n) ==
+    [vw EXCEPT !.short = ~(bs.t = "i" /\ be.t = "e"), !.lens = lens, !.steps = 0, !.maxsteps = n + 1]
+LenDue == view.lens /\ ev.op # "v_len"
 
 (***************************************************************************)
 (* Machine arithmetic, exactly as lib.rs:240-257.                          *)
@@ -499,6 +508,55 @@ NextCtor ==
                         "from_iter", <<>>, 0, 0, [x \in 1..k |-> x % 3])
 
 (***************************************************************************)
+(* Conversions: Clone (lib.rs, impl Clone), to_vec, IntoIterator.          *)
+(* The source of clone_from is buffer 1 of the abstract state; only its    *)
+(* front-to-back order matters to the mechanism (it is read through        *)
+(* iter()), its physical layout is part of the scenario.                   *)
+(***************************************************************************)
+MyIds == LET p == SlicesOf(start, size) IN IdsAt(slots, p[1] \o p[2])
+FreshBuf == [Rnow EXCEPT !.start = 0, !.size = 0, !.slots = [k \in 0..(N - 1) |-> Junk]]
+\* Vec::with_capacity + extend(iter().cloned()): on a clone panic the vector drops what it holds
+RECURSIVE ToVecLoop(_, _, _, _)
+ToVecLoop(r, src, f, acc) ==
+    IF src = <<>> THEN [r EXCEPT !.ret = [RetK("ids") EXCEPT !.ids = acc]]
+    ELSE LET r1 == CloneOne(r, Head(src), f) IN
+         IF r1.unw THEN DropMany(r1, acc, f) ELSE ToVecLoop(r1, Tail(src), f, acc \o <<r1.last>>)
+
+ConvEv(op, r, h2, f, post, post2) ==
+    LET e0 == [Ev0 EXCEPT !.op = op, !.h2 = h2, !.cbs = r.cbs, !.unw = r.unw, !.inj = r.fired, !.fk = f.k, !.fn = f.n,
+                          !.ret = IF r.unw THEN RetK("panic") ELSE r.ret, !.allocs = IF r.unw THEN -1 ELSE 0]
+    IN [e0 EXCEPT !.post = IF post[1] THEN Obs(post[2].start, post[2].size, post[2].slots, S, e0) ELSE NoObs,
+                  !.post2 = IF post2[1] THEN Obs(post2[2].start, post2[2].size, post2[2].slots, S, e0) ELSE NoObs]
+
+\* operations that do not look at the second buffer are only offered for one (empty) source
+SrcTrivial == lay0.src.start = 0 /\ lay0.src.size = 0
+NextConv ==
+    /\ Conv /\ Idle
+    /\ \/ \E f \in Faults(ExtendClonedLoop(FreshBuf, MyIds, NoFault)) :
+            LET r1 == ExtendClonedLoop(FreshBuf, MyIds, f)                                \* clone(): from_iter(iter().cloned())
+                r == IF r1.unw THEN DropLocal(r1, f) ELSE r1
+                keep == [Rnow EXCEPT !.nid = r.nid] IN
+            /\ SrcTrivial
+            /\ (f.k = "none" \/ r.fired)
+            /\ Commit(ConvEv("clone", r, 2, f, <<TRUE, Rnow>>, <<~r.unw, r>>), keep) /\ UNCHANGED view
+       \/ \E f \in Faults(ExtendClonedLoop(Clear(Rnow, NoFault), BufSeq(S, 1), NoFault)) :    \* clone_from(&other)
+            LET r1 == Clear(Rnow, f)
+                r == IF r1.unw THEN r1 ELSE ExtendClonedLoop(r1, BufSeq(S, 1), f) IN
+            /\ (f.k = "none" \/ r.fired)
+            /\ Commit(ConvEv("clone_from", r, 1, f, <<TRUE, r>>, <<FALSE, r>>), r) /\ UNCHANGED view
+       \/ \E f \in Faults(ToVecLoop(Rnow, MyIds, NoFault, <<>>)) :                         \* to_vec()
+            LET r == ToVecLoop(Rnow, MyIds, f, <<>>) IN
+            /\ SrcTrivial
+            /\ (f.k = "none" \/ r.fired)
+            /\ Commit(ConvEv("to_vec", r, -1, f, <<TRUE, Rnow>>, <<FALSE, r>>), [Rnow EXCEPT !.nid = r.nid]) /\ UNCHANGED view
+       \/ LET r == [Rnow EXCEPT !.ret = RetN(size)]                                        \* into_iter()
+               e == [ConvEv("into_iter", r, -1, NoFault, <<FALSE, r>>, <<FALSE, r>>) EXCEPT !.v = 0] IN
+           /\ SrcTrivial
+           /\ \E lens \in {FALSE, TRUE} :
+                 view' = Script([NoView EXCEPT !.on = TRUE, !.kind = "into"], [t |-> "i", x |-> 0], [t |-> "e", x |-> size], lens, size)
+           /\ Commit(e, r)
+
+(***************************************************************************)
 (* Byte-stream I/O: io.rs / embedded_io.rs (the three trait families share *)
 (* these bodies).                                                          *)
 (***************************************************************************)
@@ -532,13 +590,6 @@ NextIO ==
 (***************************************************************************)
 (* Views: a drain or an iterator lives across several calls.               *)
 (***************************************************************************)
-\* how the view will be exercised: canonical range forms get every interleaving of next / next_back
-\* (up to one call past exhaustion), with len() after every step or never; other forms are only
-\* measured and dropped
-Script(vw, bs, be, lens, n) ==
-    [vw EXCEPT !.short = ~(bs.t = "i" /\ be.t = "e"), !.lens = lens, !.steps = 0, !.maxsteps = n + 1]
-LenDue == view.lens /\ ev.op # "v_len"
-
 ViewEv(op, r, e1) ==
     [e1 EXCEPT !.op = op, !.v = 0, !.cbs = r.cbs, !.unw = r.unw, !.inj = r.fired,
                !.ret = IF r.unw THEN RetK("panic") ELSE r.ret, !.allocs = IF r.unw THEN -1 ELSE 0]
@@ -571,14 +622,20 @@ NextViewNew ==
                 /\ \E lens \in {FALSE, TRUE} : view' = Script(it, [t |-> "i", x |-> 0], [t |-> "e", x |-> size], lens, size)
                 /\ Commit([e EXCEPT !.post = IF op = "iter_mut" THEN NoObs ELSE Obs(start, size, slots, S, e)], r)
 
-ViewObs(e) == IF view.kind \in {"drain", "iter_mut"} THEN NoObs ELSE Obs(start, size, slots, S, e)
+ViewObs(e) == IF view.kind \in {"drain", "iter_mut", "into"} THEN NoObs ELSE Obs(start, size, slots, S, e)
+IntoH(e) == IF view.kind = "into" THEN [e EXCEPT !.h = -1] ELSE e
 
 NextViewStep ==
     /\ view.on /\ fails = {}
     /\ \/ \E back \in {FALSE, TRUE} :
             LET op == IF back THEN "v_next_back" ELSE "v_next" IN
             /\ ~view.short /\ ~LenDue /\ view.steps < view.maxsteps
-            /\ IF view.kind = "drain"
+            /\ IF view.kind = "into"      \* IntoIter: pop_front / pop_back on the owned buffer
+               THEN LET r == OptRet(IF back THEN PopBackR(Rnow) ELSE PopFrontR(Rnow))
+                        e == IntoH(ViewEv(op, r, Ev0)) IN
+                    /\ view' = [view EXCEPT !.steps = @ + 1]
+                    /\ Commit(e, r)
+               ELSE IF view.kind = "drain"
                THEN LET has == view.is < view.ie
                      idx == IF back THEN view.ie - 1 ELSE view.is
                      r == IF has THEN [Rnow EXCEPT !.ret = RetId("some", slots[AddMod(start, idx, N)])] ELSE [Rnow EXCEPT !.ret = RetK("none")]
@@ -595,18 +652,20 @@ NextViewStep ==
                      rest == IF ~has THEN src ELSE IF back THEN Take(src, Len(src) - 1) ELSE Tail(src) IN
                  /\ view' = [(IF fromRight THEN [view EXCEPT !.right = rest] ELSE [view EXCEPT !.left = rest]) EXCEPT !.steps = @ + 1]
                  /\ Commit([e EXCEPT !.post = ViewObs(e)], r)
-       \/ LET n == IF view.kind = "drain" THEN view.ie - view.is ELSE Len(view.right) + Len(view.left)
+       \/ LET n == IF view.kind = "drain" THEN view.ie - view.is ELSE IF view.kind = "into" THEN size ELSE Len(view.right) + Len(view.left)
               r == [Rnow EXCEPT !.ret = [RetN(n) EXCEPT !.ids2 = <<n, n>>]]
-              e == ViewEv("v_len", r, Ev0) IN
+              e == IntoH(ViewEv("v_len", r, Ev0)) IN
           /\ LenDue
           /\ view' = view
           /\ Commit([e EXCEPT !.post = ViewObs(e)], r)
-       \/ \E f \in Faults(IF view.kind = "drain" THEN DrainDrop(Rnow, view, NoFault) ELSE Rnow) :
-            LET r == IF view.kind = "drain" THEN DrainDrop(Rnow, view, f) ELSE Rnow
-                e == ViewEv("v_drop", r, Ev0) IN
+       \/ \E f \in Faults(IF view.kind = "drain" THEN DrainDrop(Rnow, view, NoFault)
+                           ELSE IF view.kind = "into" THEN DropLocal(Rnow, NoFault) ELSE Rnow) :
+            LET r == IF view.kind = "drain" THEN DrainDrop(Rnow, view, f)
+                     ELSE IF view.kind = "into" THEN DropLocal(Rnow, f) ELSE Rnow
+                e == IntoH(ViewEv("v_drop", r, Ev0)) IN
             /\ (f.k = "none" \/ r.fired) /\ ~LenDue
             /\ view' = NoView
-            /\ Commit([e EXCEPT !.post = Obs(r.start, r.size, r.slots, S, e), !.fk = f.k, !.fn = f.n], r)
+            /\ Commit([e EXCEPT !.post = IF view.kind = "into" THEN NoObs ELSE Obs(r.start, r.size, r.slots, S, e), !.fk = f.k, !.fn = f.n], r)
        \/ /\ view.kind = "drain" /\ ~LenDue /\ ~view.short
           /\ LET r == Rnow  e == ViewEv("v_forget", r, Ev0) IN
              /\ view' = NoView
@@ -626,10 +685,24 @@ InitLayout(st, sz) ==
     /\ S = IF Bytes THEN [InitS EXCEPT !.bufs = (0 :> buf)]
            ELSE [InitS EXCEPT !.bufs = (0 :> buf), !.nd = [id \in 1..sz |-> 0], !.val = [id \in 1..sz |-> PayloadOf(id)]]
     /\ nid = sz + 1
-    /\ lay0 = [n |-> N, start |-> st, size |-> sz]
+    /\ lay0 = [n |-> N, start |-> st, size |-> sz, src |-> [start |-> 0, size |-> 0]]
+
+\* conversion family: a second buffer (handle 1) with its own layout and fresh elements
+InitPair(st, sz, st2, sz2) ==
+    LET sl == [k \in 0..(N - 1) |-> IF N > 0 /\ ((k - st + N) % N) < sz THEN ((k - st + N) % N) + 1 ELSE Junk]
+        p == SlicesOf(st, sz)
+        q == SlicesOf(st2, sz2)
+        buf == [cap |-> N, seq |-> IdsAt(sl, p[1] \o p[2]), slot |-> p[1] \o p[2], split |-> Len(p[1]), lock |-> -1]
+        src == [cap |-> N, seq |-> [k \in 1..sz2 |-> sz + k], slot |-> q[1] \o q[2], split |-> Len(q[1]), lock |-> -1] IN
+    /\ start = st /\ size = sz /\ slots = sl
+    /\ S = [InitS EXCEPT !.bufs = (0 :> buf) @@ (1 :> src), !.nd = [id \in 1..(sz + sz2) |-> 0],
+                         !.val = [id \in 1..(sz + sz2) |-> PayloadOf(id)]]
+    /\ nid = sz + sz2 + 1
+    /\ lay0 = [n |-> N, start |-> st, size |-> sz, src |-> [start |-> st2, size |-> sz2]]
 
 Init ==
-    /\ \E lay \in (IF Mode = "oneshot" THEN Layouts ELSE {<<0, 0>>}) : InitLayout(lay[1], lay[2])
+    /\ IF Conv THEN \E lay \in Layouts, lay2 \in Layouts : InitPair(lay[1], lay[2], lay2[1], lay2[2])
+       ELSE \E lay \in (IF Mode = "oneshot" THEN Layouts ELSE {<<0, 0>>}) : InitLayout(lay[1], lay[2])
     /\ ev = Ev0 /\ fails = {} /\ view = NoView /\ hist = <<>> /\ ncalls = 0
 
 Finished == IF Mode = "oneshot" THEN ncalls >= 1 /\ ~view.on ELSE ncalls >= MaxCalls
@@ -644,7 +717,8 @@ Ctor       == ~Finished /\ NextCtor
 ViewNewA   == ~Finished /\ NextViewNew
 ViewStepA  == ~Finished /\ NextViewStep
 IOA        == ~Finished /\ NextIO
-NextCall == IOA \/ Single \/ Positional \/ Bulk \/ Fill \/ Extend \/ AccessA \/ Ctor \/ ViewNewA \/ ViewStepA
+ConvA      == ~Finished /\ NextConv
+NextCall == IOA \/ ConvA \/ Single \/ Positional \/ Bulk \/ Fill \/ Extend \/ AccessA \/ Ctor \/ ViewNewA \/ ViewStepA
 Spec == Init /\ [][NextCall]_vars
 
 (***************************************************************************)
